@@ -1,4 +1,5 @@
 """C03 — destination integrity through every protocol re-encoding (binary codecs)."""
+import harness
 from specs import codec
 
 
